@@ -356,6 +356,27 @@ Proof.
   - intros e q _. destruct q as [|y q]; simpl; [reflexivity|]. destruct (key_lt e y); reflexivity.
 Qed.
 
+(* the hypothesis queue_ok, in terms of the input history: a simulator built from ANY list of
+   events with non-negative timestamps, known event types and sessions that stay at least one
+   period satisfies it *)
+Lemma fold_insert_incl evs : forall q, incl (fold_left (fun q e => lq_insert e q) evs q) (evs ++ q).
+Proof.
+  induction evs as [|e evs IH]; intros q; simpl.
+  - apply incl_refl.
+  - intros x Hx. apply IH in Hx. apply in_app_or in Hx. destruct Hx as [Hx|Hx].
+    + right. apply in_or_app. left; exact Hx.
+    + apply lq_insert_incl in Hx. destruct Hx as [<-|Hx]; [left; reflexivity|].
+      right. apply in_or_app. right; exact Hx.
+Qed.
+
+Lemma init_queue_ok evs mr :
+  Forall (fun e => 0 <= e_ts e /\ ev_ok e) evs -> queue_ok ListQ dstate (init_sim_list evs mr).
+Proof.
+  intro H. unfold queue_ok, init_sim_list. simpl.
+  rewrite Forall_forall in *. intros x Hx. apply fold_insert_incl in Hx.
+  rewrite app_nil_r in Hx. apply H. exact Hx.
+Qed.
+
 (* ------------------------------------------------------------------------------------------ *)
 (* concrete witnesses (heap queue, discrete rest of state)                                    *)
 (* ------------------------------------------------------------------------------------------ *)
